@@ -8,7 +8,7 @@ OUT=/verif/seeded/$ID
 mkdir -p $OUT
 cp -r $WT/MUTANT/. $OUT/
 cd $WT
-git stash -q 2>/dev/null || true   # drop whatever state the agent left; start from the pinned commit
+# (no git stash here: the stash is shared between all worktrees of the repository)
 git checkout -q -- . 
 git apply --check $OUT/patch.diff || { echo "patch does not apply"; exit 3; }
 # demo without the change
